@@ -79,6 +79,7 @@ def run(rep, tier):
         boundary(rep, c, sfx)
         advance(rep, c, sfx)
         strlen_rule(rep, c, sfx)
+        narrow(rep, c, sfx)
         if cfg != "nomemchr":
             skiparms(rep, c, sfx)
         else:
@@ -1061,6 +1062,43 @@ def strlen_rule(rep, c, sfx):
                                 "inside a character" % (b["name"], strs[sid]))
     if n == 0:
         r.lost("cursor steps by the length of a string argument (match_string / match_insensitive)")
+
+
+def narrowing_char_casts(body):
+    out = []
+    for x in walk(body):
+        if kind(x) == "Cast" and str(x.get("ty")) in ("u8", "i8", "u16", "i16"):
+            src = x["e"]
+            sty = str(src.get("ty", "")).replace("&", "").strip()
+            if sty == "char":
+                out.append(x)
+    return out
+
+
+def narrow(rep, c, sfx):
+    r = rep.rule("C03.NARROW" + sfx, 0,
+                 "no matcher of Position / ParserState casts a character of the input to a narrower integer (`c as u8`): "
+                 "the cast keeps the low bits only, so a comparison made on the result holds for every character that "
+                 "shares them (U+0100 'as u8' is 0) - the primitive then matches text it must not match")
+    # the detector must recognise the construct it looks for (a rule whose expected count is zero)
+    probe = {"k": "Block", "stmts": [], "expr": {"k": "Cast", "ty": "u8", "e": {"k": "Path", "res": "local", "id": 1, "ty": "char"}}}
+    if len(narrowing_char_casts(probe)) != 1:
+        r.lost("self-test of the cast detector")
+        return
+    n = 0
+    for b in c.bodies:
+        if b.get("impl_self") not in (POSITION, "pest::parser_state::ParserState") or b.get("body") is None or b.get("exp") \
+                or "::tests::" in b["path"]:
+            continue
+        n += 1
+        for x in narrowing_char_casts(b["body"]):
+            r.violation("%s:char-as-%s" % (b["name"], x.get("ty")), where(x),
+                        "%s::%s narrows an input character with `as %s`: every character with the same low bits compares "
+                        "equal (e.g. a control-character range then matches U+4E00, whose low byte is 0x00)"
+                        % (b["impl_self"].split("::")[-1], b["name"], x.get("ty")))
+    r.instance("functions-scanned", "", "%d functions of Position / ParserState" % n)
+    if n < 40:
+        r.lost("the matchers of Position / ParserState (found %d functions)" % n)
 
 
 def _eval_byte(e, bval):
